@@ -26,7 +26,13 @@ def streams(tier, seed, wd, wide=False):
     probe = build_harness(wd, "probe_lbuf", LBUF_SRCS)
     t = "thorough" if wide else tier
     cases = gen_lbuf.rdwr_cases(rng, t)
-    return [relabel_stream(probe, "rdwr", "rdwr", "rdwr01", cases,
+    # the ex-level glue around lbuf_rd / lbuf_wr: :w, ranges, :w! other, :wq, :e
+    from props import exlib
+    import gen_ex
+    exprobe = exlib.build(wd)
+    exs = exlib.ex_stream(exprobe, "ex-write", "ex01", gen_ex.c01_cases(rng, 6000 if t != "quick" else 500),
+        "scripts of edits (incl. deleting every line), :w, :w! other, range writes, %d|w, :wq, :x, :e! over files that are absent, empty, without final newline, of 600 lines, with lines of 4094..5000 bytes, and over targets longer than what is written: after every successful write the target holds exactly the addressed lines (cut to the new length) and the model agrees on buffer and files")
+    return [exs, relabel_stream(probe, "rdwr", "rdwr", "rdwr01", cases,
         "files with a line of length in {0..3,1022..1026,2047..2049,4094..4098,8191..8193}, line pairs straddling the 4 KiB batch, line counts in {0..3,510..514,1022..1026,2047..2049} x ranges, random files over bytes 1..255 (invalid UTF-8 included) x read chunkings x short-write schedules x previous target contents {absent, empty, shorter, equal, longer, much longer}; non-trivial = file > 2 bytes with chunking, schedule or old content")]
 
 def replay_case(wd, path, src, dst, srcs):
@@ -51,8 +57,11 @@ def main(tier, seed, replay):
     proof["modules"] = MODULES
     with Workdir() as wd:
         if replay:
+            if any(l.startswith("case:") and l[5:].strip().startswith("ex01 ") for l in open(replay)):
+                from props import exlib
+                return exlib.replay(wd, replay, "ex01")
             return replay_case(wd, replay, "rdwr", "rdwr01", LBUF_SRCS)
         st = streams(tier, seed, wd)
         return decide(PROP, tier, seed, proof, st, t0,
-                      level_note="theorems: split_join / lines_wf / split_of_join (line splitting), mem_ok/rdAcc_ok/buf_ok (the read buffer never overflows, for any chunking), rd_any_chunking, writeFully_ok + wr_stream (for every batch size >= 1 and every schedule of short writes the bytes written are exactly the lines and sz their length; the coalescing buffer never overflows), wr_file (any previous content), roundtrip. Sizes 1024/4096/512 are parameters regenerated from lbuf.c. The ex-level glue (:w ranges, :e) is tied under C03/C06.",
+                      level_note="theorems: split_join / lines_wf / split_of_join (line splitting), mem_ok/rdAcc_ok/buf_ok (the read buffer never overflows, for any chunking), rd_any_chunking, writeFully_ok + wr_stream (for every batch size >= 1 and every schedule of short writes the bytes written are exactly the lines and sz their length; the coalescing buffer never overflows), wr_file (any previous content), roundtrip. Sizes 1024/4096/512 are parameters regenerated from lbuf.c. The ex-level glue (:w, ranges, :w! other over longer targets, :wq, :e) is tied by the ex-write stream (model correspondence plus the success_exact judge shared with C03).",
                       search=lambda: streams("thorough", seed + 1000, wd, wide=True))
